@@ -19,6 +19,7 @@ import (
 	"bufio"
 	"context"
 	"crypto/rand"
+	"errors"
 	"fmt"
 	"io/ioutil"
 	"os"
@@ -27,6 +28,7 @@ import (
 	"sort"
 	"strconv"
 	"strings"
+	"sync/atomic"
 	"time"
 
 	"github.com/ipfs/ipfs-cluster/api"
@@ -52,26 +54,57 @@ func (e *infraError) Error() string { return e.what }
 func infra(format string, a ...interface{}) error { return &infraError{fmt.Sprintf(format, a...)} }
 
 // consensusRPC lets other members redirect LogPin / LogUnpin to this node when it leads.
+// A fault injector in front of it fails the next failNext forwarded requests without doing anything
+// (what a leader answers while it is losing leadership, or an unreachable leader): kind redir.
 type consensusRPC struct{ n *node }
 
+var errInjected = errors.New("injected: forwarded request not executed")
+
+func (c *consensusRPC) fail() bool {
+	atomic.AddInt32(&c.n.fwdSeen, 1)
+	return atomic.AddInt32(&c.n.failNext, -1) >= 0
+}
+
 func (c *consensusRPC) LogPin(ctx context.Context, in *api.Pin, out *struct{}) error {
+	if c.fail() {
+		return errInjected
+	}
 	return c.n.cc.LogPin(ctx, in)
 }
 func (c *consensusRPC) LogUnpin(ctx context.Context, in *api.Pin, out *struct{}) error {
+	if c.fail() {
+		return errInjected
+	}
 	return c.n.cc.LogUnpin(ctx, in)
+}
+func (c *consensusRPC) AddPeer(ctx context.Context, in peer.ID, out *struct{}) error {
+	if c.fail() {
+		return errInjected
+	}
+	return c.n.cc.AddPeer(ctx, in)
+}
+func (c *consensusRPC) RmPeer(ctx context.Context, in peer.ID, out *struct{}) error {
+	if c.fail() {
+		return errInjected
+	}
+	return c.n.cc.RmPeer(ctx, in)
 }
 
 type node struct {
-	dir      string
-	priv     crypto.PrivKey
-	id       peer.ID
-	peers    []peer.ID // initial peerset (others)
-	trailing uint64
-	h        host.Host
-	cc       *raft.Consensus
-	tr       *tracker
-	up       bool
-	idxOf    []uint64 // Raft index of op k (as far as known)
+	failNext   int32 // forwarded requests still to fail (atomic)
+	fwdSeen    int32 // forwarded requests received (atomic)
+	retries    int   // CommitRetries (0 = package default unless retriesSet)
+	retriesSet bool
+	dir        string
+	priv       crypto.PrivKey
+	id         peer.ID
+	peers      []peer.ID // initial peerset (others)
+	trailing   uint64
+	h          host.Host
+	cc         *raft.Consensus
+	tr         *tracker
+	up         bool
+	idxOf      []uint64 // Raft index of op k (as far as known)
 }
 
 func newNode(dir string) (*node, error) {
@@ -127,6 +160,10 @@ func (n *node) config() *raft.Config {
 	cfg.RaftConfig.SnapshotInterval = time.Hour // only forced snapshots and the one at shutdown
 	cfg.RaftConfig.SnapshotThreshold = 1 << 30
 	cfg.RaftConfig.TrailingLogs = n.trailing
+	if n.retriesSet {
+		cfg.CommitRetries = n.retries
+		cfg.CommitRetryDelay = 50 * time.Millisecond
+	}
 	return cfg
 }
 
@@ -238,9 +275,9 @@ func (n *node) submit(o op) error {
 	ctx, cancel := context.WithTimeout(context.Background(), 60*time.Second)
 	defer cancel()
 	if o.pin {
-		return n.cc.LogPin(ctx, common.PinOf(o.tok))
+		return n.cc.LogPin(ctx, pinOf(o.tok))
 	}
-	return n.cc.LogUnpin(ctx, common.PinOf(o.tok))
+	return n.cc.LogUnpin(ctx, pinOf(o.tok))
 }
 
 // ackResult: ok = LogPin/LogUnpin returned nil and the FSM applied the entry (tracker call seen);
@@ -723,7 +760,7 @@ func genRaftCase(r *common.Rng, kind string, k int) (int, []op, []string) {
 	nops := r.Range(3, 12)
 	ops := genOps(r, nops, 3)
 	if k%5 == 4 { // known-finding stream: last op with origins
-		ops = append(ops, op{pin: true, tok: randPin(r, r.Intn(cidUniverse), 1, false)})
+		ops = append(ops, undecodableOp(r))
 		nops++
 	}
 	var ev []string
